@@ -100,3 +100,14 @@ CLAIMS["C27"] = {"engine": "envelope", "level": "model_checking",
                  "text": "TLC explores the envelope automaton over every token string up to length 6 (totality, payloads are pushes, a well-formed envelope is found with exactly its payload, nothing without the OP_FALSE OP_IF 'ord' prefix); the same strings (up to length 5/6) are written as real tapscripts and the real RawEnvelope parser must return exactly ParseScript(tokens) with consecutive indices; inscriptions built by ord's reveal-script builder with all field/length combinations must parse back to the same field contents (length + checksum per field), with the push layout and duplicate flag the layout rules predict; compact encodings of pointer/delegate/parent values are checked against the little-endian trimmed definition; arbitrary witness bytes never panic",
                  "note": "trusted: TLC, the harness; field contents are compared by length and 32-bit checksum; token strings abstract push contents",
                  "technique": "TLC model checking of the envelope automaton (EnvelopeModel) + TLA+ trace validation of the real parser/builder"}
+
+ENGINES.append({"name": "explorer", "path": "spec/ContentTrace.tla", "serves_properties": ["C18", "C19"],
+                "kind_free_text": "TLA+ decision table for content serving (ContentTrace) and view definitions of the JSON/recursive endpoints over the projected index state (ExplorerTrace); TLC validates responses recorded from the real explorer served in-process over real HTTP"})
+CLAIMS["C18"] = {"engine": "explorer", "level": "exploration",
+                 "text": "the real explorer serves replayed indexes in-process; every output, inscription, inscribed sat, block and rune of the state is requested on the JSON and recursive routes and TLC requires each response to equal the corresponding view of the State projected from the index tables (listings paginated by 100 in creation order, negative sat indices counted back from the newest, `more` flags, output contents, inscription location/value/number/charms incl. lost, parents/children, rune entries, address rows and balances)",
+                 "note": "trusted: TLC, the harness projection of JSON to labels/units; the reference is the index state as projected through the guarded hooks, so this checks the explorer against the index, not the index against the chain (that is C01-C11)",
+                 "technique": "TLA+ view definitions + TLC trace validation of real HTTP responses (ExplorerTrace)"}
+CLAIMS["C19"] = {"engine": "explorer", "level": "exploration",
+                 "text": "one real inscription per class of the decision table (content type, encoding, body, delegate target incl. hidden/missing/delegating, hidden by config, reinscribed sat) is served by the real explorer; every content route x Accept-Encoding x csp-origin x decompress configuration is requested and TLC evaluates the table: exact body source, content type, encoding negotiation (pass-through / decompress / 406), immutable caching except for negative sat indices, the content CSP restricted to self or the configured origin plus recursive paths, a CSP header on every response incl. errors, and hidden content never served directly or through a delegate (this found the hidden-delegate leak, now repaired)",
+                 "note": "trusted: TLC, the harness HTTP client (no automatic decompression); bodies are tiny so the transport compression layer stays out of the way; invalid content-encoding bytes are left unconstrained",
+                 "technique": "TLA+ decision table (ContentTrace) + TLC trace validation of real HTTP responses"}
